@@ -2293,12 +2293,44 @@ Proof.
   cbv zeta. pose proof (lk_remap "diff" _ _ UA UB L) as LR.
   rewrite (lk_only_keys _ _ _ LR), !(lk_kw _ _ _ LR). reflexivity.
 Qed.
+(* pydiffx fix D15: call_meta drops a metadata section's line_endings option first; lookups and key
+   uniqueness survive the deletion *)
+Lemma adel_get : forall (o : dopts) k k', assoc_get beq k' (assoc_del beq k o) = if beq k' k then None else assoc_get beq k' o.
+Proof.
+  induction o as [|[k0 v0] o IH]; cbn; intros k k'; [destruct (beq k' k); reflexivity|].
+  destruct (beq k k0) eqn:E.
+  - apply beq_eq in E. subst k0. rewrite IH. destruct (beq k' k); reflexivity.
+  - cbn. rewrite IH. destruct (beq k' k0) eqn:E0; [|reflexivity].
+    apply beq_eq in E0. subst k0. destruct (beq k' k) eqn:E1; [|reflexivity].
+    apply beq_eq in E1. subst k'. rewrite beq_refl in E. discriminate.
+Qed.
+Lemma lk_adel : forall a b k, dopts_lk a b -> dopts_lk (assoc_del beq k a) (assoc_del beq k b).
+Proof. intros a b k L k'. rewrite !adel_get, (L k'). reflexivity. Qed.
+Lemma adel_in : forall (o : dopts) k p, In p (assoc_del beq k o) -> In p o.
+Proof.
+  induction o as [|[k0 v0] o IH]; cbn; intros k p I; [exact I|].
+  destruct (beq k k0); [right; eauto|]. destruct I as [I|I]; [left; exact I | right; eauto].
+Qed.
+Lemma adel_nodup_map {C} : forall (g : bytes * wv -> C) (o : dopts) k, NoDup (map g o) -> NoDup (map g (assoc_del beq k o)).
+Proof.
+  intros g. induction o as [|[k0 v0] o IH]; cbn; intros k ND; [exact ND|].
+  inversion ND as [|? ? N1 N2]; subst. destruct (beq k k0); [auto|]. cbn. constructor; [|auto].
+  intro I. apply N1. apply in_map_iff in I. destruct I as (p & E & I). apply in_map_iff. exists p. split; [exact E|].
+  eapply adel_in; eauto.
+Qed.
+Lemma remap_unique_adel : forall name o k, remap_unique name o = true -> remap_unique name (assoc_del beq k o) = true.
+Proof.
+  intros name o k U. unfold remap_unique in *. apply keys_unique_NoDup. apply keys_unique_NoDup in U.
+  unfold renamed in *. rewrite map_map in *. apply adel_nodup_map. exact U.
+Qed.
+
 Lemma exec_meta_lk : forall a b, msec_lk a b -> forall s, exec (call_meta a) s = exec (call_meta b) s.
 Proof.
   intros a b (L & [N D] & UA & UB) s. unfold call_meta. rewrite N. destruct (is_nil (m_content b)) eqn:NB; auto.
-  cbv zeta. pose proof (lk_remap "meta" _ _ UA UB L) as LR.
+  cbv zeta. pose proof (lk_remap "meta" _ _ (remap_unique_adel _ _ (B "line_endings") UA)
+                          (remap_unique_adel _ _ (B "line_endings") UB) (lk_adel _ _ (B "line_endings") L)) as LR.
   rewrite (lk_only_keys _ _ _ LR), (lk_kw _ _ _ LR), (lk_kw_opt _ _ _ LR).
-  destruct (negb (only_keys (remap "meta" (m_opts b)) ["encoding"; "meta_format"])); auto.
+  destruct (negb (only_keys (remap "meta" (assoc_del beq (B "line_endings") (m_opts b))) ["encoding"; "meta_format"])); auto.
   destruct (m_content a) as [|pa ma]; [discriminate|]. destruct (m_content b) as [|pb mb]; [discriminate|].
   unfold exec, do_call. cbn [wv_truthy nonempty negb]. rewrite D. reflexivity.
 Qed.
